@@ -484,6 +484,20 @@ def _norm1(e, ctx):
         if fn == ('name', 'Cat') and len(args) == 2 and not kwargs and args[0][0] == 'call' and args[0][1] in (('name', 'Const'), ('name', 'C')) and \
                 len(args[0][2]) == 2 and args[0][2][0] == ('const', 0) and not args[0][3]:
             return ('nary', '*', (('bin', '**', ('const', 2), args[0][2][1]), args[1]))
+        # logarithms of constants; a one-fold replication; the bits of a value, concatenated in order, are the value
+        if fn in (('name', 'exact_log2'), ('name', 'ceil_log2')) and len(args) == 1 and not kwargs and args[0][0] == 'const' and \
+                isinstance(args[0][1], int) and not isinstance(args[0][1], bool) and args[0][1] >= 1:
+            v_ = args[0][1]
+            if fn[1] == 'ceil_log2':
+                return ('const', (v_ - 1).bit_length())
+            if v_ & (v_ - 1) == 0:
+                return ('const', v_.bit_length() - 1)
+        if fn[0] == 'attr' and fn[2] == 'replicate' and args == (('const', 1),) and not kwargs:
+            return fn[1]
+        if fn == ('name', 'Cat') and len(args) == 1 and not kwargs and args[0][0] == 'gen' and len(args[0][3]) == 1 and \
+                not args[0][3][0][2] and args[0][2] == args[0][3][0][0] and args[0][2][0] == 'bv' and \
+                args[0][3][0][1][0] == 'attr' and args[0][3][0][1][2] in ('sel', 'adr', 'dat_w', 'dat_r', 'w_data', 'r_data', 'addr'):
+            return args[0][3][0][1]
         if any(a[0] == 'star' and a[1][0] in ('tuple', 'list') for a in args):
             flat = []
             for a in args:
@@ -683,6 +697,10 @@ def _norm1(e, ctx):
         if op == '+':
             return a
         return None
+    if k == 'nary':
+        # an operand that has meanwhile become a constant (or another product) is folded in
+        r_ = _mk_nary(e[1], e[2])
+        return r_ if r_ != e else None
     if k == 'bin':
         op, a, b = e[1], e[2], e[3]
         if op == '>>' and not _has_str(a):
@@ -851,8 +869,16 @@ def _norm1(e, ctx):
             return e[1]                                 # True if c else False
         if e[2] == ('const', False) and e[3] == ('const', True):
             return ('un', 'not', e[1])
-        # a if a > b else b  /  b if a < b else a  ==  max(a, b);  a if a < b else b == min(a, b)
+        # A if X == K else B, with B at X = K being A: the special case says nothing (`adr if r == 1 else adr << log2(r)`)
         c_ = e[1]
+        if c_[0] == 'cmp' and c_[1] in ('==', '!=') and (c_[2][0] == 'const') != (c_[3][0] == 'const'):
+            X, K = (c_[2], c_[3]) if c_[3][0] == 'const' else (c_[3], c_[2])
+            spec, gen_ = (e[2], e[3]) if c_[1] == '==' else (e[3], e[2])
+            if isinstance(K[1], int) and not isinstance(K[1], bool) and X[0] not in ('const', 'phi') and mentions(gen_, X):
+                at_k = norm(subst(gen_, lambda x: K if x == X else None), ctx)
+                if at_k == spec:
+                    return gen_
+        # a if a > b else b  /  b if a < b else a  ==  max(a, b);  a if a < b else b == min(a, b)
         if c_[0] == 'cmp' and c_[1] == '<' and {c_[2], c_[3]} == {e[2], e[3]} and e[2] != e[3]:
             fn = 'min' if e[2] == c_[2] else 'max'
             args = tuple(sorted((e[2], e[3]), key=_sort_key))
